@@ -182,6 +182,35 @@ def loadM : FileM Loaded := do
   let tags ← tagsM atoms
   pure { atoms, info, tags }
 
+/-- `MP4Tags.save` with its reads: `Atoms(fileobj)` as the program `atomsM` (every tell / read / seek of the atom reader,
+any of which may fail or come back short) instead of the summary `peek` + `parse` of `saveTagsM`; the rest is the same
+program.  In environments without injected faults the two do the same to the file (`saveTagsFullM_q`). -/
+def saveTagsFullM (B : Nat) (ilstData : Bytes) (pad : PadChoice) : FileM Unit := do
+  let atoms ← atomsM
+  match regionOf atoms with
+  | none => raise .mutagen
+  | some R =>
+    if (path? atoms ilstPath).isSome then do
+      let size ← getSize
+      if size < R.offset + R.length then raise .mutagen
+      else do
+        let new := existingData ilstData pad (size - (R.offset + R.length)) R.length
+        resizeBytes B R.length new.length R.offset
+        fseek R.offset
+        fwrite new
+        bookkeepingM R.parents atoms ((new.length : Int) - R.length) R.offset R.length
+    else do
+      let size ← getSize
+      let data := newData ilstData pad (size - R.offset) R.parents
+      insertBytes B data.length R.offset
+      fseek R.offset
+      fwrite data
+      bookkeepingM R.parents atoms ((data.length : Int) - (0 : Nat)) R.offset 0
+
+/-- `MP4Tags.save(fileobj, padding)` as the caller sees it, reads included -/
+def saveFullEntryM (B : Nat) (ilstData : Bytes) (pad : PadChoice) : FileM Unit :=
+  convertError PyErr.isIO .mutagen (saveTagsFullM B ilstData pad)
+
 /-! ### the same on the bytes -/
 
 open Mutagen.Info.Mp4 in
